@@ -15,7 +15,7 @@ pub fn check_spec(rep: &mut Report, spec: &Spec, seed: u64) {
     // one specification in four: build() called twice on one builder, the second result is judged;
     // one in four: the same calls with state labels whose hash codes collide
     let variant = fnv(&case) % 4;
-    let incremental = spec.calls.iter().any(|c| matches!(c, Call::Build));
+    let incremental = spec.calls.iter().any(|c| matches!(c, Call::Build | Call::BuildUnchecked));
     if incremental {
         rep.inc("builds_after_an_earlier_build_and_more_calls_judged");
     }
@@ -136,10 +136,10 @@ pub fn run(p: &Params, rep: &mut Report) {
             let n = inc.calls.len();
             // cut points: uniformly, or just before the last few calls (where generators put re-declarations and defects)
             let cut = if rng.chance(1, 2) { 1 + rng.usize(n - 1) } else { n - 1 - rng.usize(3.min(n - 1)) };
-            inc.calls.insert(cut.max(1), Call::Build);
+            inc.calls.insert(cut.max(1), if rng.chance(1, 3) { Call::BuildUnchecked } else { Call::Build });
             if rng.chance(1, 4) {
                 let c2 = 1 + rng.usize(inc.calls.len() - 1);
-                inc.calls.insert(c2, Call::Build);
+                inc.calls.insert(c2, if rng.chance(1, 3) { Call::BuildUnchecked } else { Call::Build });
             }
             let text = inc.to_text();
             rep.eval(Some(&text));
